@@ -115,7 +115,7 @@ class Scenario(worlds.World):
             self.note("connected" if connected else "disconnected")
             if connected and not params.get("quiet_subscriber"):
                 await self.sock.send(self.request, S.RETRY_CONNECTED)
-            if self.raise_on:
+            if self.raise_on and params.get("conn_raises", True):
                 raise RuntimeError("subscriber failure (connection)")
         on_connection.__qualname__ = "c07.on_connection"
 
@@ -428,6 +428,17 @@ def run(tier, seed, part=None):
             res = explorer.explore(SPEC, params, depth, dev, time_cap=cap, seed=seed, label=f"at{gen}/reactive/d{depth}/v{dev}/rev{rev}")
             chk.add_explorer(f"at{gen}/reactive-subscriber" + ("/reverse-order" if rev else ""), SPEC, params, res,
                              {"depth": depth, "deviations": dev, "reactive": True, "sibling_order_reversed": rev})
+        # the same with only the *message* subscriber failing (the connection subscriber behaves), at every distance
+        # between the failure and the sibling's write error: whatever the library uses to run siblings - and whatever
+        # that does to the others when one of them fails - the sibling's reset must run to its re-connection
+        for rev in (False, True):
+            for ra in (0, 1, 2):
+                params = {"gen": gen, "reactive": True, "bad_kinds": [], "unreachable": False, "sub_rev": rev, "raise_after": ra,
+                          "conn_raises": False}
+                res = explorer.explore(SPEC, params, depth, dev, time_cap=cap, seed=seed, label=f"at{gen}/reactive-msgonly/d{depth}/v{dev}/rev{rev}/ra{ra}")
+                chk.add_explorer(f"at{gen}/reactive-subscriber/only-message-subscriber-fails/after{ra}" + ("/reverse-order" if rev else ""), SPEC, params, res,
+                                 {"depth": depth, "deviations": dev, "reactive": True, "sibling_order_reversed": rev, "raise_after_yields": ra,
+                                  "connection_subscriber_raises": False})
         # backbone scripts around back-pressure: a stream that stalls, is given up by the client and lingers in
         # close() on its unsent bytes while the rest of the client moves on
         for name, script in SCRIPTS.items():
